@@ -7,6 +7,7 @@ As everywhere in the C08 model an array argument is a memory `mem : Int → α` 
 ANY sign/order); the kernels read it only through the accessor the C++ uses.  No Mathlib here (linked into the driver).
 -/
 import Mahotas.Model.C08Base
+import Mahotas.Model.C19
 namespace Mahotas.C08
 open Mahotas
 
@@ -103,6 +104,21 @@ def retrieveBoth {α : Type} (fv : FiltV α) (mem : Int → α) (v : View) (i j 
   | some (some off) => some (mem (s.it.data + FilterIter.elemOffset fv.astrides off))
   | _ => none
 
+/-! ### `cooccurence<T>` (`features/_texture.cpp` l.22–40) -/
+
+/-- `cooccurence<T>(res, array, Bc)`: the image is walked with its iterator (`val = *iter`), `Bc` — the wrapper's one-hot
+`3^nd` direction array — becomes a compressed `filter_iterator(array, Bc, ExtendIgnore, true)`, and wherever
+`filter.retrieve(iter, 0, val2)` delivers a neighbour `++res.at(val, val2)` (the `mm × mm` int32 result was zero-filled by the
+wrapper; `res.at(i, j)` is cell `i*mm + j` of its logical content). The `throw` on negative values is not modelled: values
+are in `[0, mm)` (the wrapper sizes the result from the maximum). -/
+def coocView (mm : Nat) (mA : Int → Int) (vA : View) (mB : Int → Int) (vB : View) : Array Nat :=
+  let fv := mkFiltV (fun x => x != 0) vA mB vB .ignore true
+  (List.range (shapeSize vA.shape)).foldl (fun acc i =>
+      match (fv.neigh 0 mA (iterPtr vA i) i).head? with
+      | some (some val2, _) => acc.modify ((readIter mA vA i).toNat * mm + val2.toNat) (· + 1)
+      | _ => acc)
+    (Array.replicate (mm * mm) 0)
+
 /-! ### purity: which buffer reaches a native kernel that overwrites an array argument
 
 `Generated/CopyGuards.lean: inplaceSites` lists EVERY call of such a kernel in the Python sources with the provenance of the
@@ -141,6 +157,7 @@ def handleViewsA (a : Args) : String :=
   | "regmin" => s!"out={ob (regView true mA vA mB vB)}"
   | "close_holes" => s!"out={ob (closeHolesView mA vA mB vB)}"
   | "majority" => s!"out={ob (majorityView (a.nat "n") mA vA)}"
+  | "cooccurence" => s!"out={showNats (coocView (a.nat "mm") mA vA mB vB).toList}"
   | k => s!"error=unknown-kernel-{k}"
 
 end Mahotas.C08
